@@ -3,6 +3,7 @@ package p2j
 import (
 	"context"
 	"fmt"
+	"io"
 	"math"
 
 	"github.com/cloudwego/dynamicgo/http"
@@ -227,6 +228,14 @@ func (self *BinaryConv) unmarshalSingular(ctx context.Context, resp http.Respons
 		message := (*fd).Message()
 		comma := false
 		start := p.Read
+		if l < 0 || start+l > len(p.Buf) {
+			return wrapError(meta.ErrRead, "unmarshal Messagekind error", io.ErrUnexpectedEOF)
+		}
+		// the fields of this message must not read beyond its end: an unpacked list or map at the end of
+		// a sub-message would otherwise swallow the parent's following elements that carry the same field number
+		whole := p.Buf
+		p.Buf = whole[:start+l]
+		defer func() { p.Buf = whole }()
 
 		*out = json.EncodeObjectBegin(*out)
 
